@@ -38,7 +38,7 @@ def tlc_tables(ck, job, n, sizes, S):
 def make_inputs(n, sizes, S, clustered):
     """data points, samples, clusters DataFrame (or None), mutation-name -> (d, j)."""
     import pandas as pd
-    tab = gridoracle.int_tables(n, S, 5, 11)
+    tab = gridoracle.int_tables(n, S, 7, 11)      # 7 grid points: CCFs are multiples of 1/6 (not representable with two decimals)
     if clustered:
         names = [str(100 + d) for d in range(n)]          # integer cluster ids, as PyClone-VI emits
         rows = []
@@ -295,15 +295,18 @@ def mixed_traces(ck, workdir):
         ("two chains in two modes, two entries each", [(0, [T([[0, 1, 2], [1, 2], [3]])] * 2), (1, [T([[0, 1, 2], [0, 1], [3]])] * 2)]),
         ("nested vs flat, with an outlier", [(0, [T([[0, 1, 2], [1, 2], [2]], [3]), T([[0], [1], [2]], [3])])]),
         ("four different trees", [(0, [T([[0, 1, 2, 3]]), T([[0, 1], [2, 3]]), T([[0, 2], [1, 3]]), T([[0, 3], [1, 2]])])]),
+        ("the most frequent tree scores best at its last visit (ascending scores)", [(0, [T([[0, 1, 2, 3]])] + [T([[0, 1], [2, 3]])] * 4)]),
     ]
     d = os.path.join(workdir, "mixed")
     os.makedirs(d, exist_ok=True)
     sink = io.StringIO()
     for ci, (label, chains) in enumerate(cases):
         tp = os.path.join(d, "trace%d.pkl.gz" % ci)
-        outputs.write_trace_file(tp, [(num, [(k, -2.0 - 0.25 * j, j) for j, k in enumerate(ents)]) for num, ents in chains], data, samples)
+        # thinned runs: recorded iteration numbers run ahead of the positions in the trace
+        outputs.write_trace_file(tp, [(num, [(k, (-2.0 - 0.25 * j) if "ascending" not in label else (-4.0 + 0.25 * j), j) for j, k in enumerate(ents)]) for num, ents in chains],
+                                 data, samples, thin=(1, 5, 3, 7, 4)[ci % 5])
         rep = {"case": label, "chains": [[absstate.to_json(k) for k in ents] for _, ents in chains]}
-        for cmd, kw in (("map", {}), ("consensus", dict(consensus_threshold=0.5, weight_type="counts")), ("consensus", dict(consensus_threshold=0.5)),
+        for cmd, kw in (("map", {}), ("map", dict(map_type="frequency")), ("consensus", dict(consensus_threshold=0.5, weight_type="counts")), ("consensus", dict(consensus_threshold=0.5)),
                         ("consensus", dict(consensus_threshold=0.75, weight_type="counts")), ("topology", {})):
             ck.evaluations += 1
             tf, nf = os.path.join(d, "o.tsv"), os.path.join(d, "o.nwk")
